@@ -164,6 +164,11 @@ def root_read(t):
     return None
 
 
+def mod_match(m, oid):
+    """Does frame entry m (an object id, or a predicate over object ids) cover oid?"""
+    return m(oid) if callable(m) else oid == m
+
+
 def has_quantifier(t) -> bool:
     seen = set()
     stack = [t]
@@ -632,7 +637,7 @@ class Exec:
         alts = [oid >= self.alloc0]
         for mid, mname in self.modset:
             if mod_covers(mname, mapname):
-                alts.append(oid == mid)
+                alts.append(mod_match(mid, oid))
         return z3.Or(alts)
 
     def check_frame(self, oid, mapname: str, what: str) -> None:
@@ -784,6 +789,8 @@ class Exec:
         for it in items:
             if it.ty.kind == "raw" and isinstance(it.aux, tuple) and it.aux[0] == "field":
                 out.append((it.aux[1], "fld:" + it.aux[2]))
+            elif it.ty.kind == "raw" and isinstance(it.aux, tuple) and it.aux[0] == "each":
+                out.append((it.aux[1], it.aux[2]))
             elif it.ty.kind == "raw" and isinstance(it.aux, tuple) and it.aux[0] == "maybe":
                 # optional object: None contributes nothing
                 out.append((it.aux[1], "*"))
